@@ -343,6 +343,14 @@ func c03Borrow(r *fw.Run, p *fw.Program) {
 	}
 	{
 		sc := r.Scratch()
+		c04Opts(sc, p)
+		if dump {
+			c03DumpKeys(sc)
+		}
+		r.Import(sc, "C04.opts", "C03.cover", "a nested format decoded from a delimited range (explicit length/range, separate buffer, top level) is decoded with FillGaps, so that its value's range is exactly the range it was given (what the position advances by), the unread bits being its own gap children rather than the parent's; open-ended nested decodes (Range.Len = BitsLeft()) are not filled and advance by the decoded extent; IsRoot exactly for a reader that is not the parent's buffer (C04.opts obligations)", 13, nil)
+	}
+	{
+		sc := r.Scratch()
 		c12Roots(sc, p)
 		if dump {
 			c03DumpKeys(sc)
